@@ -394,7 +394,18 @@ def run(ctx, chk, tier="quick"):
     item_formats = {}       # values written one per line with a hand-made format, not by yaml.dump
     for fq, label in (("simulate_rise.simulate_rise", "rise"), ("simulate_recession.dump_simulated_recession", "recession")):
         g = ctx.func(fq)
-        for wcall, marker, dump in vector_dumps(ctx, g):
+        ins_texts = set()
+        for kind_ in KINDS:
+            if (kind_, "ins", "spline", "spline") in built:
+                for it_ in built[(kind_, "ins", "spline", "spline")][1].written:
+                    if it_.kind == "lit" and it_.template.startswith("@"):
+                        ins_texts.add(it_.template.strip("@").strip())
+        entries = list(vector_dumps(ctx, g))
+        # several comment lines before the vector: the marker is the one the instruction files search for
+        searched = [e for e in entries if e[1].strip() in ins_texts]
+        for wcall, marker, dump in entries:
+            if searched and (wcall, marker, dump) not in searched:
+                continue
             markers[label] = marker.strip()
             # the values start on the line after the marker: nothing else is written to the file between the marker and the vector
             if dump is not None:
